@@ -655,7 +655,7 @@ class BloomFilterOnDisk(BloomFilter):
             Only exported if the filename is not the original filename"""
         self.__update()
         if file and Path(file) != self._filepath:
-            copyfile(self._filepath.name, str(file))
+            copyfile(self._filepath, str(file))
         # otherwise, nothing to do!
 
     def _load(self, file: Union[str, Path], hash_function: Union[HashFuncT, None] = None):  # type: ignore
